@@ -261,16 +261,32 @@ def print_assumptions(prop_file):
     axioms = set()
     closed = 0
     cur = []
+    # Print Assumptions prints either "Closed under the global context" or a block
+    #   Axioms:
+    #   <qualified name> : <type, possibly continued on indented lines>
+    # `Check thm.` output ("thm : statement") of names defined in the property file itself is not
+    # part of such a block.
+    own = set(re.findall(r'^\s*(?:Theorem|Lemma|Corollary|Definition|Example)\s+([A-Za-z0-9_\']+)',
+                         open(os.path.join(COQ, prop_file)).read(), re.M))
     lines = out.splitlines()
+    in_block = False
     for k, line in enumerate(lines):
         if line.startswith('Closed under the global context'):
             closed += 1
-        m2 = re.match(r'^([A-Za-z_][A-Za-z0-9_\.\']*) :', line)
-        if m2:
-            axioms.add(m2.group(1))
-        m = re.match(r'^([A-Za-z_][A-Za-z0-9_\.\']*)\s*$', line)
-        if m and k + 1 < len(lines) and lines[k + 1].lstrip().startswith(':') and lines[k + 1].startswith(' '):
-            axioms.add(m.group(1))
+            in_block = False
+            continue
+        if line.strip() == 'Axioms:':
+            in_block = True
+            continue
+        if not in_block:
+            continue
+        if line.startswith(' ') or not line.strip():
+            continue
+        m2 = re.match(r'^([A-Za-z_][A-Za-z0-9_\.\']*)(\s*:|\s*$)', line)
+        if not m2 or m2.group(1) in own:
+            in_block = False
+            continue
+        axioms.add(m2.group(1))
     return rc == 0, sorted(axioms), closed, out
 
 
